@@ -184,7 +184,8 @@ static void run_case(int f, int w, int h, int k, int t, int placement, const std
     vr::outcome(fn + "|died|" + died);
     // a read past the block is reported by ASan as heap-buffer-overflow, or as SEGV when the block
     // happens to end at the end of the mapped heap region: one class for both
-    std::string cls = (died.find("heap-buffer-overflow") != std::string::npos || died.find("SEGV") != std::string::npos)
+    // (or as unknown-crash when the access straddles that end)
+    std::string cls = (died.find("heap-buffer-overflow") != std::string::npos || died.find("SEGV") != std::string::npos || died.find("unknown-crash") != std::string::npos)
         ? "memory access outside the block it was given (asan:heap-buffer-overflow/SEGV)"
         : died;
     viol(fn + (placement ? "|padded buffer|" : "|exact-size buffer|") + cls, replay, std::string(dims) + ": the writer died: " + died + " :: " + headline);
